@@ -123,6 +123,17 @@ def rpoly(rng, v, params, deg, kind, sparse=0.25, monic=False):
     return r
 
 
+def pred_mod0(a, M):
+    r = {}
+    for k, c in a.items():
+        c %= M
+        if c > M // 2:
+            c -= M
+        if c:
+            r[k] = c
+    return r
+
+
 def rassign(rng, params):
     return {v: rng.randint(-3, 3) for v in params}
 
@@ -204,17 +215,21 @@ def generate(rng, tier):
         emit(v, params, P, Q, "common%d:%s" % (k, kind), both=True)
 
     # ---- 3. defective chains: remainder sequence with degree jumps  P = Q*A0 + R1, Q = R1*A1 + R2, deg R1 - deg R2 >= 2
-    for _ in range(220 if quick else 700):
+    for _ in range(240 if quick else 700):
         v, params = setup()
-        kind = rng.choice(["int", "int", "int", "par"])
+        kind = rng.choice(["int", "int", "int", "par", "par1"])
+        if kind == "par1":
+            params = [rng.choice(params)]          # one parameter: the fast (Bareiss) reference applies beyond dimension 11
         d2 = rng.choice([0, 0, 0, 1])
-        jump = rng.choice([2, 2, 3, 3, 4, 4] if quick else [2, 3, 3, 4, 4, 5, 5, 6])
+        # jump = deg R1 - deg R2; S_e_optimized runs with n = jump - 1: n >= 4 makes its loop run at least twice
+        jump = rng.choice([2, 2, 3, 3, 4, 4, 5, 5, 6] if quick else [2, 3, 3, 4, 4, 5, 5, 6, 6, 7])
         d1 = d2 + jump
         dq = d1 + rng.choice([1, 1, 1, 2])
         dp = dq + rng.choice([0, 0, 1, 2])
-        if dp + dq > lim(kind):
+        big_ok = {"int": 18, "par1": 15, "par": MAXDIM_PAR}[kind]
+        if dp + dq > big_ok:
             kind = "int"
-        if dp + dq > lim(kind):
+        if dp + dq > 18:
             continue
         ck = "int" if kind == "int" else rng.choice(["int", "par"])
         R2 = rpoly(rng, v, params, d2, ck)
@@ -224,6 +239,12 @@ def generate(rng, tier):
         Q = padd(pmul(R1, A1), R2)
         P = padd(pmul(Q, A0), R1)
         if pdeg(P, v) != dp or pdeg(Q, v) != dq:
+            continue
+        if rng.random() < 0.2:
+            M = rng.choice([3, 5, 7, 13, 101, 1000000007])
+            Pr, Qr = pred_mod0(P, M), pred_mod0(Q, M)
+            if pdeg(Pr, v) == dp and pdeg(Qr, v) == dq:
+                cases.append("srp %d %d %s %s #Zp-defective-jump%d:%s" % (M, v, ptext(P), ptext(Q), jump, kind))
             continue
         emit(v, params, P, Q, "defective-jump%d:%s" % (jump, kind), both=(rng.random() < 0.4))
     # defective already at the first step (deg prem(P,Q) < deg Q - 1) and vanishing intermediate leading coefficients
@@ -418,8 +439,15 @@ def generate(rng, tier):
     for _ in range(260 if quick else 500):
         v, params = setup()
         par = rng.random() < 0.4
-        k = rng.choice([2, 2, 2, 3])
+        k = rng.choice([2, 2, 2, 3, 3, 4, 4, 5, 6])
         a, b = rng.randint(1, 3), rng.randint(1, 3)
+        if k >= 4:
+            a, b = rng.randint(1, 12 // k), rng.randint(1, 12 // k)
+            if max(a, b) * k < 8 and rng.random() < 0.7:
+                a = 12 // k
+        one_par = par and (k >= 4 or rng.random() < 0.5)
+        if one_par:
+            params = [rng.choice(params)]      # one parameter: fast (Bareiss) reference beyond dimension 11
         shape = rng.choice(["xk", "xk", "xk", "xk-perturbed", "xk-mixed-parity", "xk-times-linear"])
         p0 = low_poly(v, params, a, par); q0 = low_poly(v, params, b, par)
         P = pcompose_xk(p0, v, k); Q = pcompose_xk(q0, v, k)
@@ -435,7 +463,7 @@ def generate(rng, tier):
             else:
                 P, Q = pmul(P, L), pmul(Q, L)
         m, n = pdeg(P, v), pdeg(Q, v)
-        if m < 1 or n < 1 or m + n > (10 if par else (13 if not quick else 12)) or max(m, n) > 7:
+        if m < 1 or n < 1 or m + n > ((24 if one_par else 10) if par else 24) or max(m, n) > 13:
             continue
         if rng.random() < 0.4:
             P, Q = Q, P
